@@ -45,6 +45,8 @@ pub fn main() {
                 let c = &cases[i];
                 let t0 = Instant::now();
                 let mut n = 0u64;
+                let mut seen: std::collections::HashSet<u64> = std::collections::HashSet::new();
+                let fp = |b: &[u8]| -> u64 { let mut h = 0xcbf29ce484222325u64; for x in b { h ^= *x as u64; h = h.wrapping_mul(0x100000001b3); } h ^ (b.len() as u64) };
                 let mut found: Option<(Vec<u8>, String)> = None;
                 // 1. cartesian product of specials (capped)
                 let sp: Vec<Vec<Vec<u8>>> = c.ops.iter().map(specials).collect();
@@ -55,7 +57,7 @@ pub fn main() {
                     let mut inp = Vec::new();
                     let mut kk = if total <= 40000 { k } else { rng.below(total as u64) as usize };
                     for s in &sp { inp.extend_from_slice(&s[kk % s.len()]); kk /= s.len(); }
-                    n += 1;
+                    n += 1; seen.insert(fp(&inp));
                     if let Err(e) = run_guarded(c, &inp) { found = Some((inp, e)); break; }
                 }
                 // 2. random boundary-biased mix, sometimes a special in one slot
@@ -65,12 +67,12 @@ pub fn main() {
                         if rng.below(3) == 0 { let s = &sp[j]; inp.extend_from_slice(&s[rng.below(s.len() as u64) as usize]); }
                         else { inp.extend_from_slice(&random(op, &mut rng)); }
                     }
-                    n += 1;
+                    n += 1; if seen.len() < 2_000_000 { seen.insert(fp(&inp)); }
                     if let Err(e) = run_guarded(c, &inp) { found = Some((inp, e)); }
                 }
                 match found {
                     Some((inp, e)) => { any = true; println!("FOUND {} {} {}", c.id, hex::encode(&inp), e.replace('\n', " ")); }
-                    None => println!("NONE {} {}", c.id, n),
+                    None => println!("NONE {} {} {}", c.id, n, seen.len()),
                 }
             }
             std::process::exit(if any { 1 } else { 0 });
